@@ -1,4 +1,5 @@
 import Fabio.Model.C11
+import Fabio.Model.C11Load
 /-!
 C11, the glue between the command line and the handshake: what `main.makeTLSConfig`, `config.parseListen`,
 `cert.NewSource` and the `GetCertificate` closure of `cert.TLSConfig` add around the store, the watcher and
@@ -105,5 +106,43 @@ def Deployment.handshake (d : Deployment) (i : Nat) (server : Name) : Option Ans
   match d.listeners[i]?, d.stores[i]? with
   | some l, some s => some (getCertificate s server (parseStrict l.strict))
   | _, _ => none
+
+/-! ## `base(listURL)`: where the files named by an HTTP source's list are fetched from
+
+`base` parses the URL, replaces the path by `path.Dir(path)` unless the path is exactly `/`, and prints the URL
+again. Modelled for URLs `origin ++ path` where `origin` is `scheme://host[:port]` (opaque here) and `path` is
+empty or starts with `/` and consists of characters that `URL.String` prints unescaped (letters, digits,
+`. _ - /`) — for these `url.Parse` / `URL.String` change nothing but the path. Everything else (no scheme,
+blanks, `%`, `?`, `#`) stays with the real function (the harness ships its answer and the driver uses it there). -/
+
+/-- the loop of `path.Clean` over the elements of a rooted path: empty elements and `.` are dropped, `..` removes
+the element before it (and is dropped at the root) -/
+def cleanSegs (acc : List Name) : List Name → List Name
+  | [] => acc.reverse
+  | s :: ss =>
+    if s.isEmpty || s == ['.'] then cleanSegs acc ss
+    else if s == ['.', '.'] then cleanSegs (acc.drop 1) ss
+    else cleanSegs (s :: acc) ss
+
+def joinSlash : List Name → Name
+  | [] => []
+  | [l] => l
+  | l :: ls => l ++ '/' :: joinSlash ls
+
+/-- `path.Dir(p)` for `p = ""` or `p` starting with `/`: all but the last element, cleaned. -/
+def pathDir (p : Name) : Name :=
+  if p.isEmpty then ['.'] else
+  '/' :: joinSlash (cleanSegs [] ((splitOn '/' p).dropLast))
+
+/-- `base(origin ++ path)` -/
+def baseOf (origin path : Name) : Name :=
+  if path == ['/'] then origin ++ ['/']
+  else if path.isEmpty then origin ++ ['/', '.']      -- Path "." is printed as "/." after a host
+  else origin ++ pathDir path
+
+/-- characters of a path that `url.Parse` and `URL.String` leave alone -/
+def plainPathChar (c : Char) : Bool := c.isAlphanum || c == '.' || c == '_' || c == '-' || c == '/'
+
+def plainPath (p : Name) : Bool := (p.isEmpty || p.head? == some '/') && p.all plainPathChar
 
 end Fabio.Model.C11
